@@ -145,11 +145,32 @@ def run_history(case, root):
         if op == "write" and new_c is not None and cur != new_c:
             fails.append(("C17:unlisted:success-but-wrong-content", f"step {k} {step}: file is not the canonical text of the written content"))
             break
+        if op == "changes" and model_file is not None and _is_utf8(model_file):
+            # key-level frame model: the new file holds the old file's top-level keys plus exactly the keys THIS call named —
+            # nothing a dry run or a failed call asked for earlier
+            want_keys = top_keys(model_file)
+            got_keys = top_keys(cur)
+            if want_keys is not None and got_keys is not None:
+                want_keys = want_keys | {"K", "NEW" + str(k)}
+                if got_keys != want_keys:
+                    fails.append(("C17:unlisted:changes-wrote-keys-of-another-call", f"step {k} {step}: top-level keys {sorted(got_keys)} but the file before had "
+                                  f"{sorted(top_keys(model_file))} and this call named K and NEW{k}: extra={sorted(got_keys - want_keys)} missing={sorted(want_keys - got_keys)}"))
+                    break
         if seen_ext_since_write and bh is not None:
             read_hash_then_ext = True
         seen_ext_since_write = False
         model_file = cur
     return fails, read_hash_then_ext
+
+
+def top_keys(b: bytes):
+    from octave_mcp import parse
+    from octave_mcp.core.ast_nodes import Assignment
+
+    try:
+        return {n.key for n in parse(b.decode("utf-8")).sections if isinstance(n, Assignment)}
+    except Exception:
+        return None
 
 
 def _is_utf8(b: bytes) -> bool:
